@@ -4,9 +4,11 @@
 set -euo pipefail
 export GOFLAGS=-mod=mod GOPROXY=off GOSUMDB=off GOTOOLCHAIN=local CGO_ENABLED=1
 ROOT=${VERIF_ROOT:-/verif}
+REPO=${VERIF_REPO:-/repo}
+export VERIF_REPO=$REPO
 mkdir -p "$ROOT/.build/c20src"
 ARGS=()
-for f in /repo/daemons/server/types/pricefeed/*.go /repo/daemons/pricefeed/types/*.go; do
+for f in "$REPO"/daemons/server/types/pricefeed/*.go "$REPO"/daemons/pricefeed/types/*.go; do
   case "$f" in *_test.go) continue;; esac
   if grep -q '^\s*"sync"' "$f"; then
     out="$ROOT/.build/c20src/$(echo "$f" | tr / _)"
@@ -17,6 +19,6 @@ done
 OV=$(mktemp "$ROOT/.build/ov.XXXXXX.json")
 trap 'rm -f $OV' EXIT
 VERIF_ROOT=$ROOT python3 "$ROOT/tools/mkoverlay.py" "$OV" "${ARGS[@]}"
-cd /repo
+cd "$REPO"
 go build -tags verif -overlay "$OV" -o "$ROOT/.build/c20" ./zzverif/cmd/c20
 go build -race -tags verif -overlay "$OV" -o "$ROOT/.build/c20-race" ./zzverif/cmd/c20
